@@ -41,6 +41,42 @@ pub trait BoolKind: Sized + 'static {
         unreachable!()
     }
     fn rule() -> crate::audit::Rule;
+
+    /// DDDMP / DOT export of the given roots into memory (exercises the exporters' edge bookkeeping)
+    fn export(mref: &MRefOf<Self>, roots: &[&Self::F], how: u32) -> Option<Vec<u8>>;
+
+    /// DDDMP import of `bytes` (same variable numbering as the exporting manager)
+    fn import(mref: &MRefOf<Self>, bytes: &[u8]) -> std::io::Result<Vec<Self::F>>;
+
+    /// ZBDD set operations (ZBDD only): kind 0 subset0, 1 subset1, 2 change (with `var`); 3 union, 4 intsec, 5 diff
+    fn zset(_kind: u32, _f: &Self::F, _g: &Self::F, _var: u32) -> AllocResult<Self::F> {
+        unreachable!()
+    }
+}
+
+macro_rules! export_impl {
+    () => {
+        fn import(mref: &MRefOf<Self>, bytes: &[u8]) -> std::io::Result<Vec<Self::F>> {
+            let mut cur: &[u8] = bytes;
+            let header = oxidd_dump::dddmp::DumpHeader::load(&mut cur)?;
+            let support: Vec<u32> = header.support_var_order().to_vec();
+            mref.with_manager_shared(|m| {
+                oxidd_dump::dddmp::import::<Self::F>(&mut cur, &header, m, support.iter().copied(), <Self::F as BooleanFunction>::not_edge_owned)
+            })
+        }
+        fn export(mref: &MRefOf<Self>, roots: &[&Self::F], how: u32) -> Option<Vec<u8>> {
+            use oxidd_dump::dddmp::ExportSettings;
+            mref.with_manager_shared(|m| {
+                let mut buf: Vec<u8> = Vec::new();
+                let ok = match how % 3 {
+                    0 => ExportSettings::default().ascii().export(&mut buf, m, roots.iter().copied()).is_ok(),
+                    1 => ExportSettings::default().export(&mut buf, m, roots.iter().copied()).is_ok(),
+                    _ => oxidd_dump::dot::dump_all(&mut buf, m, roots.iter().map(|f| (*f, "f"))).is_ok(),
+                };
+                ok.then_some(buf)
+            })
+        }
+    };
 }
 
 macro_rules! quant_impl {
@@ -84,6 +120,7 @@ impl BoolKind for Bdd {
         *t == oxidd_rules_bdd::simple::BDDTerminal::True
     }
     quant_impl!();
+    export_impl!();
     fn rule() -> crate::audit::Rule {
         crate::audit::Rule::Bdd
     }
@@ -99,6 +136,7 @@ impl BoolKind for Bcdd {
         true
     }
     quant_impl!();
+    export_impl!();
     fn rule() -> crate::audit::Rule {
         crate::audit::Rule::Bcdd
     }
@@ -112,6 +150,18 @@ impl BoolKind for Zbdd {
     }
     fn term<'id>(t: &TermOfFunc<'id, Self::F>) -> bool {
         *t == oxidd_rules_zbdd::ZBDDTerminal::Base
+    }
+    export_impl!();
+    fn zset(kind: u32, f: &Self::F, g: &Self::F, var: u32) -> AllocResult<Self::F> {
+        use oxidd::BooleanVecSet;
+        match kind {
+            0 => f.subset0(var),
+            1 => f.subset1(var),
+            2 => f.change(var),
+            3 => f.union(g),
+            4 => f.intsec(g),
+            _ => f.diff(g),
+        }
     }
     fn rule() -> crate::audit::Rule {
         crate::audit::Rule::Zbdd
